@@ -477,6 +477,18 @@ def _range_contains(ev, args, depth):
     raise Unknown("Range::contains on %r" % (r,))
 
 
+def _range_incl_new(ev, args, depth):
+    return Adt("std::ops::RangeInclusive", "RangeInclusive", (deref(args[0]), deref(args[1])))
+
+
+def _range_incl_contains(ev, args, depth):
+    r = deref(args[0])
+    x = deref(args[1])
+    if isinstance(r, Adt) and len(r.fields) >= 2:
+        return r.fields[0] <= x <= r.fields[1]
+    raise Unknown("RangeInclusive::contains on %r" % (r,))
+
+
 def _min(ev, args, depth):
     return min(deref(args[0]), deref(args[1]))
 
@@ -812,6 +824,8 @@ STD_MODELS = {
     "<std::vec::Vec<T, A> as std::clone::Clone>::clone": _clone_fwd,
     "<std::string::String as std::clone::Clone>::clone": _clone_fwd,
     "std::ops::Range::<Idx>::contains": _range_contains,
+    "std::ops::RangeInclusive::<Idx>::new": _range_incl_new,
+    "std::ops::RangeInclusive::<Idx>::contains": _range_incl_contains,
     "std::cmp::min": _min,
     "std::cmp::max": _max,
     "std::cmp::Ord::min": _min,
